@@ -209,7 +209,7 @@ def check_c17(tier):
 
 def check_c16(tier):
     t0 = time.time()
-    groups = [(g, [("Group", f'= "{g}"')]) for g in ("A", "B", "C")]
+    groups = [(g, [("Group", f'= "{g}"')]) for g in ("A", "B", "C", "D")]
     vectors, gens, states = generate("Gen_Outline.tla", groups, "c16")
     inp = os.path.join(WORK, "c16_in.ndjson")
     outp = os.path.join(WORK, "c16_out.ndjson")
